@@ -782,6 +782,13 @@ def gen_life(r, n, tier):
     yield "life r20.20 m0 t100 refuse/refuse/serve E,-,-,-,-,-,R"
     yield "life r50.40 m0 t100 refuse/refuse/serve E,-,-,-,-,-,R"
     yield "life r30.120 m1 t100 silent/serve E,-,-,R,-,-,-,R"
+    # C14 at task level: the sequence restarts at min after ANY successful connection, however
+    # that connection ends (disable, peer close, garbage, timeout limit)
+    yield "life r20.160 m0 t100 refuse/refuse/serve/refuse/refuse/serve E,-,-,-,-,-,-,D,E,-,-,-,-"
+    yield "life r20.160 m0 t100 refuse/refuse/close/refuse/refuse/serve E,-,-,-,-,-,-,-,-,-,-,-"
+    yield "life r20.160 m0 t100 refuse/refuse/garbage/refuse/refuse/serve E,-,-,-,-,-,-,-,-,-,-,-"
+    yield "life r20.160 m1 t100 refuse/refuse/silent/refuse/refuse/serve E,-,-,-,-,-,-,R,-,-,-,-,-,-"
+    yield "life r20.50 m0 t100 refuse/refuse/refuse/refuse/serve E,-,-,-,-,-,-,-,-,-"
     yield "life r30.120 m0 t100 serve -,S"
     yield "life r30.120 m0 t100 serve X"
     yield "life r30.120 m0 t100 serve E+D+E+D"
@@ -1267,6 +1274,8 @@ def gen_cl_task(r, n, tier, focus="mix"):
         q = r.pick([1, 2, 4, 16, 16, 16])
         m = r.pick([0, 0, 1, 2, 3])
         sc = ClScript(r, fr, q, m, decode_tok(r))
+        if r.chance(1, 6):
+            sc.m = f"{m}i{r.pick([65535, 65534, 65533, 65530])}"      # start next to the 65535 -> 0 wrap
         sc.steps = ["N", "E0"] if r.chance(3, 4) else []
         scripts.append(sc)
     for _ in range(max_steps):
@@ -1282,6 +1291,31 @@ def gen_cl_task(r, n, tier, focus="mix"):
         # let outstanding deadlines pass so that everything that can complete does
         sc.steps.append("A1100")
         yield sc.line()
+
+
+def gen_cl_block(r, n, tier):
+    """C10: more async submissions than the queue holds (senders wait for capacity): every
+    request must still be queued and completed, in order; fixed shape so that the order of
+    completions is forced (one reply / one timeout per step)"""
+    for _ in range(n):
+        q = r.pick([1, 1, 2, 3])
+        k = q + r.rng(2, 4)
+        fr = "t"
+        steps = ["N", "E0"]
+        reqs = []
+        for j in range(k):
+            style = r.pick(["C", "C", "R"])
+            val = r.below(65536)
+            timeout = r.pick([50, 1000])
+            steps.append(f"{style}0.b{j}.rh.1.{timeout}.{j}.1")
+            reqs.append((j, val, timeout))
+        for j, val, timeout in reqs:
+            if timeout == 1000 or r.chance(1, 2):
+                steps.append("X" + hx(mbap(j, 1, bytes([3, 2]) + be16(val))))
+            else:
+                steps.append(f"A{timeout}")
+        steps.append("A1100")
+        yield f"cl {fr} {decode_tok(r)} q{q} m0 {','.join(steps)}"
 
 
 def gen_cl_txwrap(r, n, tier):
@@ -1429,9 +1463,22 @@ def gen_dec_rdr(r, n, tier):
             yield v
 
 
+def gen_slife(r, n, tier):
+    """serial client channel: announced port wait delays when every open fails"""
+    pairs = [(200, 900), (0, 0), (250, 250), (100, 350), (0, 300), (1, 3), (999, 1000), (500, 100), (300, 10000)]
+    for mn, mx in pairs:
+        yield f"slife r{mn}.{mx} 6"
+    for _ in range(n):
+        mn = r.pick([0, 1, 50, 100, 250, 999, r.below(2000)])
+        mx = r.pick([mn, mn * 3, r.below(5000), 0, 7 * mn + 13])
+        yield f"slife r{mn}.{mx} {r.rng(3, 7)}"
+
+
 SUITES = {
+    "slife": gen_slife,
     "cl_task": gen_cl_task,
     "cl_txwrap": gen_cl_txwrap,
+    "cl_block": gen_cl_block,
     "cl_enc": gen_cl_enc,
     "cl_resp": gen_cl_resp,
     "srv_fuzz": gen_srv_fuzz,
